@@ -285,6 +285,9 @@ def gen_model_multi(rng, toks, dur=None):
         'exit_differs': {'exit': ex + 1 if ex >= 0 else -11, 'out': out,
                          'err': err, 'beh': beh},
         'streams_swapped': {'exit': ex, 'out': err, 'err': out, 'beh': beh},
+        # the same lines with other line ends (CR LF): different streams
+        'line_ends_differ': {'exit': ex, 'out': out.replace('\n', '\r\n'),
+                             'err': err.replace('\n', '\r\n'), 'beh': beh},
         'ok': {'exit': 0 if ex != 0 else 1, 'out': 'sat\n', 'err': '',
                'beh': beh},
         'perr': {'exit': 2, 'out': '', 'err': '(error "parse error")\n',
@@ -293,6 +296,8 @@ def gen_model_multi(rng, toks, dur=None):
     names = ['out_superset', 'err_superset', 'out_differs', 'err_differs',
              'exit_differs', 'streams_swapped']
     rng.shuffle(names)
+    if (out or err) and random.Random(hash_seed(toks, ex, out, err)).random() < 0.3:
+        names.insert(0, 'line_ends_differ')
     rules = [[{'k': 'golden', 'dig': reftok.digest(toks)}, 'bug']]
     for n in names[:rng.choice([2, 3, 4, 6])]:
         rules.append([{
